@@ -726,6 +726,7 @@ result_t DirectProtocolHandler::setState(BusState state, result_t result, bool f
         m_finishedRequests.push(m_currentRequest);
       }
     }
+    m_device->cancelRunningArbitration(nullptr);  // no request left to arbitrate for
   }
 
   m_escape = 0;
